@@ -103,3 +103,10 @@ check(
     "Outcomes are compared as canonical values or exception family, not messages; only registrations may change what the database reports.",
     "4/C15",
 )
+check(
+    "C16",
+    "runtime monitoring: exhaustive differential sweep - every legacy spelling derivable from the live substitution list for every table unit is fed to ~55 unit-taking API entry forms and 7 category-registration forms on the real database, each outcome compared canonically with the outcome for the current spelling; rewrite applied to every current symbol",
+    "Exhaustive: all 1548 current symbols (and all category default/valid units) survive the rewrite unchanged and the rewrite is idempotent; all 256 derived legacy spellings (every non-empty subset of token occurrences x every legacy form) restore to their table unit and give identical objects/conversion results through every entry form, under the default category and one more category of the type.",
+    "Outcomes compared canonically (-0.0 == 0.0), exceptions by class; entry points that reject legacy spellings by design and are not in the statement's list are excluded.",
+    "4/C16",
+)
